@@ -576,14 +576,18 @@ impl Formatter {
                 self.writer.write("]");
             }
             Type::Tuple(types) => {
-                self.writer.write("Tuple[");
+                // `(A, B)` is the spelling the parser reads back as a tuple type (`Tuple[A, B]` is a generic type)
+                self.writer.write("(");
                 for (i, t) in types.iter().enumerate() {
                     if i > 0 {
                         self.writer.write(", ");
                     }
                     self.format_type(&t.node);
                 }
-                self.writer.write("]");
+                if types.len() == 1 {
+                    self.writer.write(",");
+                }
+                self.writer.write(")");
             }
             Type::Function(params, return_type) => {
                 self.writer.write("(");
@@ -597,7 +601,7 @@ impl Formatter {
                 self.format_type(&return_type.node);
             }
             Type::SelfType => self.writer.write("Self"),
-            Type::Unit => self.writer.write("None"),
+            Type::Unit => self.writer.write("()"),
         }
     }
 
